@@ -1419,6 +1419,16 @@ def read_through_stable_fields(trees: Dict[str, ast.Module]) -> List[str]:
     a rule should see."""
     fields: Set[str] = set()
     unstable: Set[str] = set()
+    init_stores: Set[int] = set()
+    for t in trees.values():
+        for n in ast.walk(t):
+            if isinstance(n, ast.FunctionDef) and n.name == "__init__" and n.args.args:
+                me = n.args.args[0].arg
+                for st in n.body:
+                    if isinstance(st, (ast.Assign, ast.AnnAssign)):
+                        for tg in (st.targets if isinstance(st, ast.Assign) else [st.target]):
+                            if isinstance(tg, ast.Attribute) and isinstance(tg.value, ast.Name) and tg.value.id == me:
+                                init_stores.add(id(tg))
     for t in trees.values():
         for n in ast.walk(t):
             if isinstance(n, ast.ClassDef):
@@ -1428,7 +1438,10 @@ def read_through_stable_fields(trees: Dict[str, ast.Module]) -> List[str]:
                     elif isinstance(st, _FUNC):
                         unstable.add(st.name)
             elif isinstance(n, ast.Attribute) and isinstance(n.ctx, (ast.Store, ast.Del)):
-                unstable.add(n.attr)
+                if id(n) in init_stores:
+                    fields.add(n.attr)  # set once by the constructor: stable afterwards
+                else:
+                    unstable.add(n.attr)
             elif isinstance(n, ast.Call) and (isinstance(n.func, ast.Name) and n.func.id in ("setattr", "delattr") or isinstance(n.func, ast.Attribute) and n.func.attr in ("__setattr__", "__delattr__")):
                 for a in n.args:
                     if isinstance(a, ast.Constant) and isinstance(a.value, str):
@@ -2339,6 +2352,14 @@ def fuse_wrappers(trees: Dict[str, ast.Module]) -> List[str]:
                         if isinstance(s_, ast.FunctionDef) and s_.name == f.attr and s_ is not w:
                             g, ghome, gcls = s_, mod, cls
                             argnames = [wparams[0]] + argnames
+                elif isinstance(f, ast.Attribute) and isinstance(f.value, ast.Name) and cls is None:
+                    # a module-level function kept as a forwarding name for a static method `Cls.same_or_new_name(..)`
+                    for m2, t2_ in trees.items():
+                        for c2 in t2_.body:
+                            if isinstance(c2, ast.ClassDef) and c2.name == f.value.id:
+                                for s_ in c2.body:
+                                    if isinstance(s_, ast.FunctionDef) and s_.name == f.attr and any(isinstance(d, ast.Name) and d.id == "staticmethod" for d in s_.decorator_list):
+                                        g, ghome, gcls = s_, m2, c2
                 elif isinstance(f, ast.Attribute) and isinstance(f.value, ast.Name) and cls is not None and f.value.id == cls.name:
                     # Class.static_helper(..) from a static wrapper of the same class
                     for s_ in cls.body:
@@ -2406,6 +2427,19 @@ def fuse_wrappers(trees: Dict[str, ast.Module]) -> List[str]:
                             if argnames != wparams and not call.keywords and len(call.args) == len(gparams):
                                 call.args = [call.args[argnames.index(p_)] for p_ in wparams]
                             n_red += 1
+                if gcls is not None and cls is None and not g_is_method:
+                    # Cls.g(..) / self.g(..) anywhere are calls of the module-level name
+                    for t2 in trees.values():
+                        for call in ast.walk(t2):
+                            if isinstance(call, ast.Call) and isinstance(call.func, ast.Attribute) and call.func.attr == g.name and isinstance(call.func.value, ast.Name) and call.func.value.id in ("self", "cls", gcls.name) and not any(call is x for x in ast.walk(w)):
+                                inside_cls = any(call is x for x in ast.walk(gcls)) or call.func.value.id == gcls.name
+                                if inside_cls:
+                                    call.func = ast.copy_location(ast.Name(id=w.name, ctx=ast.Load()), call.func)
+                                    n_red += 1
+                    if g in gcls.body and not any(isinstance(x, ast.Attribute) and x.attr == g.name and isinstance(x.value, ast.Name) and x.value.id in ("self", "cls", gcls.name) for t2 in trees.values() for x in ast.walk(t2) if not any(x is y for y in ast.walk(g))):
+                        gcls.body.remove(g)
+                        if not gcls.body:
+                            gcls.body.append(ast.Pass())
                 refs = sum(1 for t2 in trees.values() for x in ast.walk(t2) if (isinstance(x, ast.Name) and x.id == g.name and not any(x is y for y in ast.walk(w))) and g.name != w.name)
                 holder = gcls.body if gcls is not None else trees[ghome].body
                 if refs == 0 and g in holder and g.name != w.name or (g.name == w.name and g in holder and not any(isinstance(x, ast.Name) and x.id == g.name for t2 in trees.values() for x in ast.walk(t2) if not any(x is y for y in ast.walk(w)))):
